@@ -174,6 +174,14 @@ func ctxTimeout(d time.Duration) (context.Context, context.CancelFunc) {
 }
 
 // runC: scripted raw client with its own credentials implementation against a real Server.
+// offersOf is nil-safe (a pre-emptive Basic request is sent before any challenge).
+func offersOf(ch *challenge) any {
+	if ch == nil {
+		return "none yet"
+	}
+	return ch.offers
+}
+
 func runC(t *testing.T, sc Scenario) *core.Result {
 	opts := sys.Options{Seed: sc.Seed, Net: sc.Net, MaxSteps: 300000, Horizon: 10 * time.Minute}
 	var summary map[string]any
@@ -563,7 +571,7 @@ func runC(t *testing.T, sc Scenario) *core.Result {
 							return
 						}
 						w.Fail("c10/complete "+schemeName(st.Scheme), "workload C: %s %s with valid %s credentials built by the harness from RFC 7617/2617/7616 (user %q, password %q, algorithm form %q) was refused with %d; Authorization: %q; challenge: %+v",
-							label, wire, schemeName(st.Scheme), sc.User, sc.Pass, st.AlgForm, res.StatusCode, hdr, ch.offers)
+							label, wire, schemeName(st.Scheme), sc.User, sc.Pass, st.AlgForm, res.StatusCode, hdr, offersOf(ch))
 						return
 					}
 					if nAfter == nBefore {
